@@ -35,6 +35,7 @@ def main(tier):
         "evaluations": int(st.get("systems", 0)),
         "distinct_nontrivial": int(st.get("distinct", 0)),
         "histories": int(st.get("histories", 0)),
+        "assignment_histories": int(st.get("assignments", 0)),
         "rule": "systems = alphabet product (n<=4, quick; n<=5 thorough) + one-irregular-position patterns + "
                 "second-difference+eps + D A D scalings; a state is an SPD system (long-double Cholesky), a "
                 "transition one solveInPlace on the real class; distinct = distinct SPD specs",
